@@ -27,6 +27,7 @@ def cases(seed, tier):
     for i in range(n):
         cid = "C04-%d-%d" % (seed, i)
         hooks, hspec = None, {}
+        names = ("rk", "g")
         if i % 10 == 9:
             args = {"service": "foo.service"}
             if rng.random() < 0.7:
@@ -50,7 +51,8 @@ def cases(seed, tier):
                 hooks = [{"name": "v_hook", "args": {"id": "h0", "cgroup": rng.choice(["wl,wl/*,wl/*/*,wl/*/*/*", "wl/*", "/"])}}]
                 hspec = {"h0": [{"polls": rng.choice([0, 1, 1, 2, 3, -1])} for _ in range(6)]}
                 rs_extra["prekill_hook_timeout"] = str(rng.choice([2, 5, 30]))
-            cfg = KG.kill_config(plugin, args, rs_extra, hooks=hooks)
+            names = (KG.LONG_RS, KG.LONG_GROUP) if rng.random() < 0.1 else ("rk", "g")
+            cfg = KG.kill_config(plugin, args, rs_extra, hooks=hooks, rs_name=names[0], group=names[1])
         nticks = rng.randint(4, 6) + (2 if hooks else 0)
         ticks = [{"step_ns": rng.choice([1, 1, 2, 3]) * 10**9} for _ in range(nticks)]
         wet = KG.base_scn(cid + "-wet", cgs, cfg, ticks=ticks, hooks=hspec)
@@ -59,7 +61,7 @@ def cases(seed, tier):
         dry = copy.deepcopy(wet)
         dry["id"] = cid + "-dry"
         dry["config"]["rulesets"][0]["actions"][1]["args"]["dry"] = "true"
-        yield core.Case(cid, [wet, dry], {"plugin": plugin, "args": args, "hook": bool(hooks)})
+        yield core.Case(cid, [wet, dry], {"plugin": plugin, "args": args, "hook": bool(hooks), "names": names})
 
 
 def allowed_first(scn, meta, t0):
@@ -154,7 +156,10 @@ def judge(case, results):
         v.count("dontcare_tied_first_choice")
     elif dl[0].group(1) != wet_first.attempts[0].victim:
         v.bad("dry-victim-differs", plugin, "tick %d: dry run chose %s, wet run attempted %s first" % (t0, dl[0].group(1), wet_first.attempts[0].victim))
-    if dl[0].group(5) != plugin or dl[0].group(2) != "rk" or dl[0].group(3) != "g":
+    rsn, grn = case.meta.get("names", ("rk", "g"))
+    if len(rsn) > 100:
+        v.count("kill_records_over_992_bytes")
+    if dl[0].group(5) != plugin or dl[0].group(2) != rsn or dl[0].group(3) != grn:
         v.bad("dry-log-fields", plugin, "dry kmsg line names %s" % (dl[0].groups(),))
     # ---- control flow: post runs identically, next chain start on the same tick
     if (wet_first.post is None) != (d0.post is None):
